@@ -120,12 +120,14 @@ def inside_formula(P):
 class GeoData(object):
     """Everything concrete about one catalogue geometry, built in the worker."""
 
-    def __init__(self, name, ncols=None, need_qtree=True):
+    def __init__(self, name, ncols=None, need_qtree=True, spec=None):
+        """spec: use this spec (a catalogue geometry after in-place operations, see task_history)
+        instead of the catalogue entry's own."""
         ld = _load()
         self.mg = mg = ld.mulgrids
         self.name, self.ncols = name, ncols
         self.label = '%s%s' % (name, ncols or '')
-        self.spec = spec = _spec(name, ncols)
+        self.spec = spec = spec if spec is not None else _spec(name, ncols)
         self.geo = geo = G.build(mg, spec)
         self.cols = list(geo.columnlist)
         self.index = {c.name: i for i, c in enumerate(self.cols)}
@@ -255,27 +257,62 @@ def subset_indices(tag, n):
     raise KeyError(tag)
 
 
+class Live(object):
+    """The search aids of a LIVE geometry object, built when first asked for - i.e. after whatever
+    has been done to the object so far (task_history)."""
+
+    def __init__(self, geo):
+        self.geo = geo
+        self.cols = list(geo.columnlist)
+        self.index = {c.name: i for i, c in enumerate(self.cols)}
+        self._q = None
+
+    @property
+    def qtree(self):
+        if self._q is None: self._q = self.geo.column_quadtree()
+        return self._q
+
+    @property
+    def bpoly(self): return self.geo.boundary_polygon
+
+    @property
+    def bnodes(self): return [n.pos for n in self.geo.boundary_nodes]
+
+
 def variant_kwargs(gd, variant):
-    """'plain' | parts joined by '+': qtree, brect, bpoly, guess<i>, cols:<tag>"""
+    """'plain' | parts joined by '+': qtree, sqtree:<tag>, brect, bpoly, bnodes, guess<i>, cols:<tag>
+    sqtree:<tag> = a quadtree built with the real mulgrid.column_quadtree(columns) over the column SUBSET <tag>.
+    Returns (kwargs, allowed, guess): allowed = indices of the columns the call may return / must find
+    (None = every column)."""
     kw = {}
-    allowed = None
+    subset = None
+    sq = None
+    whole_q = False
     guess = None
+    n = len(gd.cols)
     for part in variant.split('+'):
         if part == 'plain': pass
-        elif part == 'qtree': kw['qtree'] = gd.qtree
+        elif part == 'qtree': kw['qtree'] = gd.qtree; whole_q = True
+        elif part.startswith('sqtree:'):
+            sq = subset_indices(part[7:], n)
+            kw['qtree'] = gd.geo.column_quadtree([gd.cols[i] for i in sq])
         elif part == 'brect': kw['bounds'] = gd.geo.bounds
         elif part == 'bpoly': kw['bounds'] = gd.bpoly                 # geo.boundary_polygon (simplified)
         elif part == 'bnodes': kw['bounds'] = gd.bnodes               # all boundary nodes (not simplified)
         elif part.startswith('guess'):
-            guess = int(part[5:]) % len(gd.cols)
+            guess = int(part[5:]) % n
             kw['guess'] = gd.cols[guess]
         elif part.startswith('cols:'):
-            idx = subset_indices(part[5:], len(gd.cols))
-            kw['columns'] = [gd.cols[i] for i in idx]
-            allowed = set(idx)
+            subset = subset_indices(part[5:], n)
+            kw['columns'] = [gd.cols[i] for i in subset]
         else: raise KeyError(part)
-    if 'qtree' in kw: allowed = None          # a quadtree search ignores the column list
-    if allowed is not None and guess is not None: allowed.add(guess)
+    base = set(subset) if subset is not None else None        # columns the guess branch / plain search looks at
+    if whole_q: allowed = None                                # a quadtree search ignores the column list
+    elif sq is not None: allowed = set(sq)                    # a subset quadtree finds the columns it was built over
+    else: allowed = base
+    if allowed is not None and guess is not None:
+        nb = set(gd.index[c.name] for c in gd.cols[guess].neighbour)
+        allowed = set(allowed) | set([guess]) | (nb if base is None else (nb & base))
     return kw, allowed, guess
 
 
@@ -359,7 +396,7 @@ def task_locate(geo, ncols, variant, box, boxid):
     def fail(c, symptom, what, got):
         m = c.failures[-1]['model']
         pt = _pt(m)
-        if symptom == 'none-but-inside' and 'qtree' in variant:
+        if symptom == 'none-but-inside' and 'qtree' in variant.split('+'):
             symptom = classify_qtree_miss(gd, pt)
         failures.append(dict(key='column_containing_point/%s/%s/%s' % (gd.label, vclass, symptom), what=what,
                              replay=dict(fn='column', geo=geo, ncols=ncols, variant=variant, point=pt,
@@ -519,6 +556,187 @@ def task_block(geo, ncols, use_qtree, box, zbox, boxid):
 
 
 # ---------------------------------------------------------------------------
+# histories: query -> in-place operation(s) on the SAME geometry object -> query
+
+X1, Y1 = z3.Real('x1'), z3.Real('y1')
+
+
+class Pristine(object):
+    """Snapshot of the attribute dictionaries of a geometry object and of its nodes, columns, layers and
+    connections; restore() puts every object back to exactly that state (arrays and containers are copied,
+    attributes added since are removed).  The paths of one task must re-execute deterministically, and the
+    real code iterates over sets of columns that hash by identity, so a history task keeps ONE object graph
+    per task and resets it at the start of every path instead of building new objects."""
+
+    def __init__(self, geo):
+        self.objs = [geo] + list(geo.nodelist) + list(geo.columnlist) + list(geo.layerlist) + list(geo.connectionlist)
+        self.snap = [dict((k, self._copy(v)) for k, v in o.__dict__.items()) for o in self.objs]
+
+    @staticmethod
+    def _copy(v):
+        if hasattr(v, 'dtype') and hasattr(v, 'copy'): return v.copy()
+        if isinstance(v, list): return list(v)
+        if isinstance(v, set): return set(v)
+        if isinstance(v, dict): return dict(v)
+        return v
+
+    def restore(self):
+        for o, sn in zip(self.objs, self.snap):
+            o.__dict__.clear()
+            o.__dict__.update(dict((k, self._copy(v)) for k, v in sn.items()))
+
+
+def ops_tag(ops):
+    return '.'.join('%s%s' % (op[0][:3], '' if op[0] != 'rotate' else ('c' if len(op) > 2 and op[2] is not None else ''))
+                    for op in ops) or 'noop'
+
+
+def first_box(gd, k):
+    """small box around the centre of column k (for the first query of a history)."""
+    P = gd.polys[k]
+    c = gd.cols[k].centre
+    cx, cy = F(float(c[0])), F(float(c[1]))
+    w = min(max(p[0] for p in P) - min(p[0] for p in P), max(p[1] for p in P) - min(p[1] for p in P)) / 20
+    return (cx - w, cx + w, cy - w, cy + w)
+
+
+def task_history(geo, ncols, first, firstcol, ops, second, box, boxid, zbox=None):
+    """One geometry OBJECT, put back to its freshly built state at the start of every path: first query `first` (aid configuration) with a symbolic point (x1, y1) near the
+    centre of column `firstcol`; then the real in-place operations `ops` (rotate / translate, concrete parameters)
+    on that same object; then the second query `second` (an aid configuration, or 'block' with a symbolic z) with a
+    symbolic point (x, y) anywhere in sub-box `box` of the TRANSFORMED geometry's outer box.  Aids (quadtree, bounds,
+    subsets) of each query are built from the object as it is at that moment.  Both answers are decided against the
+    half-plane oracle of the node positions a fresh, never-queried object has after the same operations."""
+    snorm.install(_load(), ['geometry', 'mulgrids'], zero_check=False)
+    gdA = GeoData(geo, ncols, need_qtree=False)
+    mg = gdA.mg
+    specB = G.spec_after(mg, gdA.spec, ops)
+    gdB = GeoData(geo, ncols, need_qtree=False, spec=specB)
+    if [c.name for c in gdA.cols] != [c.name for c in gdB.cols]: raise ValueError('column order changed')
+    box1 = first_box(gdA, firstcol)
+    excl1 = [z3.substitute(e, (X, X1), (Y, Y1)) for e in gdA.exclusion(box1)]
+    insideA = [z3.substitute(f, (X, X1), (Y, Y1)) for f in gdA.inside]
+    is_block = second == 'block'
+    excl2 = gdB.exclusion(box) + (gdB.exclusion_z(zbox) if is_block else [])
+    tag = ops_tag(ops)
+    failures, samples, distinct = [], [], set()
+    def in_block(b):
+        return z3.And(gdB.inside[b[1]], Z > q(b[3]), Z < q(b[4]))
+    blocks = [b for b in gdB.blocks if b[4] > zbox[0] and b[3] < zbox[1]] if is_block else []
+    none_block = z3.Not(z3.Or(*[in_block(b) for b in blocks])) if blocks else z3.BoolVal(True)
+
+    def fail(c, stage, symptom, what, got):
+        m = c.failures[-1]['model']
+        pt = _pt(m, is_block)
+        p1 = dict(x=sym.model_value(m, X1), y=sym.model_value(m, Y1))
+        v = first if stage == 'first' else second
+        failures.append(dict(key='history/%s/%s/%s/%s-query/%s/%s' % (gdA.label, variant_class(first), tag, stage, variant_class(v), symptom),
+                             what=what,
+                             replay=dict(fn='history', geo=geo, ncols=ncols, first=first, point1=p1, ops=[list(op) for op in ops],
+                                         second=second, point=pt, stage=stage, got=got)))
+
+    def check_column(c, stage, gd, inside, live, r, allowed, variant):
+        if r is None:
+            cand = range(len(gd.cols)) if allowed is None else sorted(allowed)
+            f = z3.Not(z3.Or(*[inside[k] for k in cand]))
+            lab = '%s query: None => no searchable column contains the point' % stage
+            distinct.add((lab, f.hash()))
+            if c.prove(f, lab) == 'sat':
+                fail(c, stage, 'none-but-inside', '%s %s, %s query %s: None for a point inside a column' % (geo, tag, stage, variant), None)
+            return 'none'
+        k = gd.index.get(r.name)
+        if k is None or live.cols[k] is not r or (allowed is not None and k not in allowed):
+            if c.refute_path('%s query: returned object is a searchable column of the geometry' % stage) == 'sat':
+                fail(c, stage, 'foreign-column', '%s %s, %s query %s: column outside the search set' % (geo, tag, stage, variant), str(r))
+            return 'foreign'
+        f = inside[k]
+        lab = '%s query: returned column contains the point' % stage
+        distinct.add((lab, f.hash()))
+        if c.prove(f, lab) == 'sat':
+            fail(c, stage, 'wrong-column', '%s %s, %s query %s: column %r does not contain the point' % (geo, tag, stage, variant, r.name), r.name)
+        return 'col'
+
+    obj = G.build(mg, gdA.spec)
+    pristine = Pristine(obj)
+
+    def h(c):
+        x1 = c.real('x1', box1[0], box1[1]); y1 = c.real('y1', box1[2], box1[3])
+        x = c.real('x', box[0], box[1]); y = c.real('y', box[2], box[3])
+        z = c.real('z', zbox[0], zbox[1]) if is_block else None
+        for e in excl1 + excl2: c.add(e)
+        pristine.restore()                              # the history mutates the object: every path starts from the pristine state
+        live = Live(obj)
+        kw1, allowed1, _ = variant_kwargs(live, first)
+        r1 = obj.column_containing_point(mg.np.array([x1, y1]), **kw1)
+        check_column(c, 'first', gdA, insideA, live, r1, allowed1, first)
+        G.apply_ops(mg, obj, ops)
+        live = Live(obj)                                # aids of the second query are built from the object as it is NOW
+        if is_block:
+            r = obj.block_name_containing_point(mg.np.array([x, y, z]))
+            if r is None:
+                lab = 'second query: None => the point lies in no block'
+                distinct.add((lab, none_block.hash()))
+                if c.prove(none_block, lab) == 'sat':
+                    fail(c, 'second', 'none-but-inside-block', '%s %s: block_name_containing_point gives None' % (geo, tag), None)
+                return 'none'
+            b = gdB.blockname.get(r)
+            if b is None:
+                if c.refute_path('second query: returned name is a block of the geometry') == 'sat':
+                    fail(c, 'second', 'wrong-block', '%s %s: block %r' % (geo, tag, r), r)
+                return 'foreign'
+            f = in_block(b)
+            lab = 'second query: returned block contains the point'
+            distinct.add((lab, f.hash()))
+            if c.prove(f, lab) == 'sat':
+                fail(c, 'second', 'wrong-block', '%s %s: block %r does not contain the point' % (geo, tag, r), r)
+            return 'block'
+        kw2, allowed2, _ = variant_kwargs(live, second)
+        r = obj.column_containing_point(mg.np.array([x, y]), **kw2)
+        out = check_column(c, 'second', gdB, gdB.inside, live, r, allowed2, second)
+        if len(samples) < 1:
+            samples.append(dict(task='history', geo=geo, first=first, first_result=str(r1), ops=[list(op) for op in ops], second=second,
+                                box=[float(v) for v in box], result=str(r), path_conditions=len(c.pc)))
+        return out
+
+    cpu0 = time.process_time()
+    res = sym.explore(h, fastctx.FastCtx(timeout_ms=30000), max_paths=20000)
+    CPU['s'] = time.process_time() - cpu0
+    return report.summarize('history/%s/%s>%s>%s/box%s' % (geo, first, tag, second, boxid), res, failures, samples,
+                            extra=dict(cpu_s=CPU['s'], distinct_obligations=len(distinct), columns=len(gdA.cols)))
+
+
+def history_plan(tier):
+    """(geo, ncols, first aid configuration, column the first point is near, operations, second query, nx, ny)"""
+    R37 = [('rotate', 37.0)]
+    RC = [('rotate', -20.0, [1.0, 1.0])]
+    T = [('translate', [7.0, -13.0, 5.0])]
+    quick = [
+        ('rect33', None, 'plain', 4, R37, 'plain', 2, 2),
+        ('rect33', None, 'plain', 0, T, 'guess4', 2, 2),
+        ('rect33', None, 'guess2', 8, [], 'plain', 2, 2),
+        ('rect33', None, 'plain', 7, T, 'block', 2, 2),
+        ('mix5', None, 'plain', 2, T + RC, 'guess3', 2, 2),
+        ('mix5', None, 'plain', 4, R37, 'sqtree:odd+cols:odd', 2, 2),
+    ]
+    if tier == 'quick': return quick
+    return quick + [
+        ('rect33', None, 'plain', 4, R37, 'qtree', 2, 2),
+        ('rect33', None, 'qtree', 4, R37, 'guess0', 2, 2),
+        ('rect33', None, 'plain', 1, R37 + R37, 'plain', 2, 2),
+        ('rect33', None, 'cols:even', 2, RC, 'cols:odd+guess3+brect', 2, 2),
+        ('rect33', None, 'plain', 5, R37, 'block', 2, 2),
+        ('rect33', None, 'plain', 7, T + RC, 'block', 2, 2),
+        ('rect33', None, 'plain', 3, T, 'bpoly', 2, 2),
+        ('mix5', None, 'qtree', 0, RC + T, 'plain', 2, 2),
+        ('mix5', None, 'guess1', 3, R37, 'bpoly', 2, 2),
+        ('mix5', None, 'plain', 1, RC, 'block', 2, 2),
+        ('rot37', None, 'plain', 4, RC, 'plain', 3, 3),
+        ('g7sub', 10, 'plain', 0, R37, 'plain', 3, 3),
+        ('g7sub', 10, 'qtree', 5, T, 'qtree', 3, 3),
+    ]
+
+
+# ---------------------------------------------------------------------------
 
 GUESS_ALL = 'ALL'
 
@@ -527,38 +745,45 @@ def plan(tier):
     if tier == 'quick':
         return [
             dict(geo='rect33', ncols=None, nx=2, ny=2,
-                 variants=['plain', 'qtree', 'brect', 'bpoly', 'guess0', 'guess4', 'guess8', 'cols:even', 'qtree+guess2', 'cols:odd+guess3+brect'],
-                 compare=['plain', 'qtree', 'guess6', 'bpoly', 'cols:firsthalf'], block=(2, [False, True])),
+                 variants=['plain', 'qtree', 'brect', 'bpoly', 'guess0', 'guess4', 'guess8', 'cols:even', 'qtree+guess2', 'cols:odd+guess3+brect',
+                           # quadtrees built over a column SUBSET: alone, with the subset as column list, with a guess
+                           'sqtree:firsthalf', 'sqtree:odd+cols:odd', 'sqtree:lasthalf+guess0'],
+                 compare=['plain', 'qtree', 'guess6', 'bpoly', 'cols:firsthalf', 'sqtree:even+cols:even'], block=(2, [False, True])),
             dict(geo='mix5', ncols=None, nx=2, ny=2,
                  variants=['plain', 'qtree', 'brect', 'bpoly', 'guess0', 'guess3', 'guess4', 'cols:odd'] +
                           # a guess together with a column subset that leaves out some of the guess's neighbours
                           # (overlapping bounding boxes on this mesh): every guess x even/odd subset
-                          ['cols:%s+guess%d' % (t, g) for g in range(5) for t in ('even', 'odd')],
+                          ['cols:%s+guess%d' % (t, g) for g in range(5) for t in ('even', 'odd')] +
+                          ['sqtree:even', 'sqtree:lasthalf+cols:lasthalf+guess0'],
                  compare=['plain', 'qtree', 'guess1', 'brect'], block=(2, [False, True])),
             dict(geo='rot37', ncols=None, nx=3, ny=3, variants=['plain', 'qtree', 'guess4'], compare=None, block=None),
-            dict(geo='g7sub', ncols=10, nx=3, ny=3, variants=['plain', 'qtree'], compare=None, block=None),
+            dict(geo='g7sub', ncols=10, nx=3, ny=3, variants=['plain', 'qtree', 'sqtree:firsthalf'], compare=None, block=None),
         ]
     return [
         dict(geo='rect33', ncols=None, nx=2, ny=2,
              variants=['plain', 'qtree', 'brect', 'bpoly', GUESS_ALL, 'cols:even', 'cols:odd', 'cols:lasthalf', 'qtree+guess2', 'qtree+guess7',
-                       'cols:odd+guess3+brect', 'cols:even+guess4+bpoly'],
-             compare=['plain', 'qtree', 'guess6', 'bpoly', 'cols:firsthalf', 'brect'], block=(3, [False, True])),
+                       'cols:odd+guess3+brect', 'cols:even+guess4+bpoly',
+                       'sqtree:firsthalf', 'sqtree:lasthalf', 'sqtree:even', 'sqtree:odd+cols:odd', 'sqtree:lasthalf+guess0', 'sqtree:firsthalf+cols:firsthalf+guess8',
+                       'sqtree:odd+brect'],
+             compare=['plain', 'qtree', 'guess6', 'bpoly', 'cols:firsthalf', 'brect', 'sqtree:even+cols:even'], block=(3, [False, True])),
         dict(geo='mix5', ncols=None, nx=2, ny=2,
              variants=['plain', 'qtree', 'brect', 'bpoly', GUESS_ALL, 'cols:odd', 'cols:even', 'qtree+guess1', 'cols:even+guess2+brect'] +
-                      ['cols:%s+guess%d' % (t, g) for g in range(5) for t in ('even', 'odd', 'firsthalf', 'lasthalf')],
-             compare=['plain', 'qtree', 'guess1', 'brect', 'bpoly'], block=(3, [False, True])),
+                      ['cols:%s+guess%d' % (t, g) for g in range(5) for t in ('even', 'odd', 'firsthalf', 'lasthalf')] +
+                      ['sqtree:even', 'sqtree:odd', 'sqtree:firsthalf', 'sqtree:lasthalf+cols:lasthalf+guess0', 'sqtree:odd+guess2'],
+             compare=['plain', 'qtree', 'guess1', 'brect', 'bpoly', 'sqtree:firsthalf'], block=(3, [False, True])),
         dict(geo='rot37', ncols=None, nx=4, ny=4,
-             variants=['plain', 'qtree', 'brect', 'bpoly', GUESS_ALL, 'cols:even', 'cols:odd', 'qtree+guess0'],
+             variants=['plain', 'qtree', 'brect', 'bpoly', GUESS_ALL, 'cols:even', 'cols:odd', 'qtree+guess0',
+                       'sqtree:firsthalf', 'sqtree:lasthalf', 'sqtree:even+cols:even'],
              compare=['plain', 'qtree', 'guess8'], block=(2, [False, True])),
         dict(geo='g7sub', ncols=16, nx=4, ny=4,
-             variants=['plain', 'qtree', 'brect', 'bnodes', 'guess0', 'guess9', 'cols:even', 'qtree+guess12'] +
+             variants=['plain', 'qtree', 'brect', 'bnodes', 'guess0', 'guess9', 'cols:even', 'qtree+guess12', 'sqtree:firsthalf', 'sqtree:lasthalf+cols:lasthalf'] +
                       ['cols:%s+guess%d' % (t, g) for g in (0, 3, 5, 9, 12) for t in ('even', 'odd')],
              compare=None, block=(1, [True])),
         dict(geo='g2sub', ncols=12, nx=4, ny=4,
-             variants=['plain', 'qtree', 'bnodes', 'guess0', 'guess6', 'cols:even'],
+             variants=['plain', 'qtree', 'bnodes', 'guess0', 'guess6', 'cols:even', 'sqtree:firsthalf'],
              compare=None, block=(3, [False], 'surface')),
         dict(geo='g5sub', ncols=12, nx=4, ny=4,
-             variants=['plain', 'qtree', 'bnodes', 'guess7'],
+             variants=['plain', 'qtree', 'bnodes', 'guess7', 'sqtree:lasthalf'],
              compare=None, block=None),
     ]
 
@@ -595,6 +820,15 @@ def run(tier, seed, rep):
                 for zi, zbox in enumerate(split_z(gd, nz, zone)):
                     for uq in qts:
                         tasks.append((task_block, dict(geo=p['geo'], ncols=p['ncols'], use_qtree=uq, box=box, zbox=zbox, boxid='%d.%d' % (bi, zi))))
+    nhist = 0
+    for (hg, hn, first, fcol, ops, second, nx, ny) in history_plan(tier):
+        if only and 'history' not in only.split(',') and hg not in only.split(','): continue
+        gdA = GeoData(hg, hn, need_qtree=False)
+        gdB = GeoData(hg, hn, need_qtree=False, spec=G.spec_after(gdA.mg, gdA.spec, ops))
+        nhist += 1
+        for bi, box in enumerate(split_boxes(gdB, nx, ny)):
+            tasks.append((task_history, dict(geo=hg, ncols=hn, first=first, firstcol=fcol, ops=ops, second=second, box=box, boxid=bi,
+                                             zbox=gdB.outer_z() if second == 'block' else None)))
     if tier == 'thorough' and (not only or 'track' in only.split(',')):
         tasks += track_tasks()
     if seed:
